@@ -124,7 +124,9 @@ WakeReader(s) ==
 \* StreamReader.feed_data(n units) into payload i: buffer, wake, pause above high water
 FeedPayload(s, i, n) ==
     LET s1 == IF n > 0 THEN WakeReader([s EXCEPT !.unread[i] = @ + n]) ELSE s
-    IN IF n > 0 /\ s1.unread[i] > HW /\ ~s1.rPaused
+        \* request.read() raised the payload's water marks (set_read_chunk_size(sys.maxsize))
+        unlimited == s.cur = i /\ s.hid = i /\ s.hbeh = "read" /\ s.hpc = "rd"
+    IN IF n > 0 /\ s1.unread[i] > HW /\ ~s1.rPaused /\ ~unlimited
        THEN TPause([s1 EXCEPT !.rPaused = TRUE])         \* BaseProtocol.pause_reading()
        ELSE s1
 
@@ -287,7 +289,7 @@ Step ==
                       THEN Commit([s EXCEPT !.spc = "cancelled", !.waiter = "none"])   \* CancelledError leaves start()
                       ELSE Commit([s EXCEPT !.waiter = "none", !.cpu = "s_pop"])
                  [] s.spc = "await_h" -> Commit([s EXCEPT !.cpu = "s_after"])
-                 [] s.spc = "linger" -> Commit([s EXCEPT !.cpu = "s_ling"])
+                 [] s.spc = "linger" -> Commit([s EXCEPT !.cpu = IF s.lgFired THEN "s_ling" ELSE "s_lingw"])
                  [] OTHER -> Commit(s))
          [] e.e = "h" -> Commit([s EXCEPT !.cpu = "h_run"])
          [] OTHER -> Commit(s)
@@ -350,6 +352,14 @@ SLing ==     \* while not payload.is_eof() and now < end_t: await payload.readan
               ELSE IF s.fclose THEN [ForceClose(s) EXCEPT !.cpu = "s_exit"]  \* _wait(): "Connection closed."
               ELSE [s EXCEPT !.spc = "linger", !.pwait = "start",
                              !.lgTimer = IF Timers THEN s.lingDl ELSE 0, !.cpu = "idle"])
+
+SLingWake == \* the pending payload.readany() was woken by data / EOF: it returns what is buffered first
+    /\ c.cpu = "s_lingw"
+    /\ LET s == [c EXCEPT !.spc = "run", !.cpu = "s_ling"] IN
+       Commit(IF s.unread[s.cur] > 0 THEN
+                   LET r == ReadAny(s, s.cur) IN
+                   IF r.exc THEN [ForceClose([r EXCEPT !.exc = FALSE]) EXCEPT !.cpu = "s_exit"] ELSE r
+              ELSE s)
 
 (* ---- the handler task (_handle_request: handler, finish_response) *)
 Finish(s, st, ka) ==       \* finish_response(): declined-upgrade tail, prepare + write_eof, drain
@@ -458,7 +468,7 @@ Tick ==      \* nothing ready: the loop sleeps until the next timer
        IN Commit(s3)
 
 Next ==
-    \/ Step \/ STop \/ SPop \/ SExit \/ SAfter \/ SLing \/ HRun \/ HDone
+    \/ Step \/ STop \/ SPop \/ SExit \/ SAfter \/ SLing \/ SLingWake \/ HRun \/ HDone
     \/ \E b \in Behaviours \cup {"preerr"} : HEnter(b)
     \/ \E n \in 1..(MaxItems * 4) : Deliver(n)
     \/ PeerDisconnect \/ Go \/ WritePause \/ WriteResume \/ Tick
@@ -519,5 +529,5 @@ NoStrandedTail ==
       /\ Len(c.messages) <= ResumeAt /\ c.tPaused /\ c.hid = 0)
 
 TypeOK == /\ c.dpos <= c.npos /\ c.ppos <= c.dpos
-          /\ c.cpu \in {"idle", "s_top", "s_pop", "s_exit", "s_after", "s_ling", "h_enter", "h_run", "h_done"}
+          /\ c.cpu \in {"idle", "s_top", "s_pop", "s_exit", "s_after", "s_ling", "s_lingw", "h_enter", "h_run", "h_done"}
 =============================================================================
